@@ -11,7 +11,11 @@ _COMMON = (
     "inputs of <=%s free bytes and templates, on constructor tokens with symbolic payloads and on the zero Token panic exactly on the wrong kind as documented; WithIndent/WithIndentPrefix on all "
     "strings of <=%s bytes panic iff a non-blank byte is present; nil reader/writer/coder Reset panics are the documented ones and leave the coder usable. "
     "nopanic: the engine reports any escaping panic in any harness of any property as a violation (not re-run here). "
-    "OUTSIDE: deep or cyclic typed Go values and cycle detection (reflection), Int/Uint/Float of number tokens with symbolic non-digit text (strconv), numbers whose "
+    "ptrcycle: Marshal of values whose cycle runs only through pointers/interfaces (type P *P at itself, any holding a pointer to itself, a two-pointer cycle through any) and Unmarshal of `1` "
+    "into the self-referential any and into type P: the library returns an error of its own before 3000 levels of recursion (counted by a declining caller-supplied function; the unmarshal half is the known finding "
+    "KF-C20-unmarshal-pointer-cycle). callopt: a Decoder/Encoder whose own AllowDuplicateNames and the per-call value given to UnmarshalDecode/MarshalEncode are chosen by the solver, 0-4 tokens consumed before the call, "
+    "two symbolic bytes in the member value the call may stumble over; afterwards the caller keeps reading/writing tokens: errors are fine, a panic is not. "
+    "OUTSIDE: other deep or cyclic typed Go values (cycles through slices/maps/structs past depth 1000), Int/Uint/Float of number tokens with symbolic non-digit text (strconv), numbers whose "
     "ParseFloat takes the Eisel-Lemire/overflow path (engine fault, see ASSUMPTIONS), wall-clock termination (only the step budget), depths other than those listed, AppendFloat bit sizes.")
 BOUNDS = {
     "quick": _COMMON % ("{10000, 10001}", "0 or 1 (1 only for arrays at a=10000)", "2 (3 over a 24-letter alphabet)", "2"),
@@ -94,4 +98,9 @@ def obligations(tier):
     L.append(ob("total/reset-misuse", P, "VerifC20ResetMisuse", [], covers=["end"]))
     if only:
         L = [o for o in L if only in o["id"]]
+    # cycles through pointers and interfaces only; per-call AllowDuplicateNames on a call that fails mid-object
+    for kind in range(5):
+        L.append(ob("ptrcycle/kind=%d" % kind, ".", "VerifC20PointerCycle", [kind], covers=(["checked"] if kind < 3 else []), step_limit=400000000))
+    L.append(ob("callopt/decoder", ".", "VerifC20CallOptionDecoder", [], covers=["call-failed", "call-succeeded", "stopped-with-error"]))
+    L.append(ob("callopt/encoder", ".", "VerifC20CallOptionEncoder", [], covers=["call-failed", "call-succeeded"]))
     return L
